@@ -368,7 +368,11 @@ def run_case(case):
                 kv, dk = exp_val, exp_d
                 comps = {'x*K': (lambda z: z[0] * pe.special.kn(n, z[0]), kv + o.value * dk), 'K**2': (lambda z: pe.special.kn(n, z[0]) ** 2, 2 * kv * dk),
                          'K/x': (lambda z: pe.special.kn(n, z[0]) / z[0], dk / o.value - kv / o.value ** 2), '3*K-1': (lambda z: 3 * pe.special.kn(n, z[0]) - 1, 3 * dk),
-                         'K(2x)': (lambda z: pe.special.kn(n, 2 * z[0]), -(ss.kn(abs(n - 1), 2 * o.value) + ss.kn(n + 1, 2 * o.value)))}
+                         'K(2x)': (lambda z: pe.special.kn(n, 2 * z[0]), -(ss.kn(abs(n - 1), 2 * o.value) + ss.kn(n + 1, 2 * o.value))),
+                         # K_n as a bare term of a sum whose other term depends on the same observable (the two branches share one cotangent)
+                         'K+x': (lambda z: pe.special.kn(n, z[0]) + z[0], dk + 1.0), 'x+K': (lambda z: z[0] + pe.special.kn(n, z[0]), dk + 1.0),
+                         'K_n+K_(n+1)': (lambda z: pe.special.kn(n, z[0]) + pe.special.kn(n + 1, z[0]), dk - 0.5 * (ss.kn(abs(n), o.value) + ss.kn(n + 2, o.value))),
+                         'K+K': (lambda z: pe.special.kn(n, z[0]) + pe.special.kn(n, z[0]), 2 * dk), 'K-x**2': (lambda z: pe.special.kn(n, z[0]) - z[0] ** 2, dk - 2 * o.value)}
                 for cn, (f, ed) in comps.items():
                     try:
                         rc = pe.derived_observable(lambda z, **kw: f(z), [o])
